@@ -18,7 +18,7 @@ def ref_line(secs):
 
 def gen_secs(seed, tier):
     r = rng_for(seed, "date")
-    out = [0, 1, 59, 60, 86399, 86400, 951782400, 951868799, 951868800, END - 1, END - 86400, 4102444800 - 1, 4102444800, 1790683106]
+    out = [END - k for k in (2, 59, 60, 61, 3599, 3600, 3601, 43200, 86399, 86400, 86401)] + [0, 1, 59, 60, 86399, 86400, 951782400, 951868799, 951868800, END - 1, END - 86400, 4102444800 - 1, 4102444800, 1790683106]
     # every month start/end of every year
     years = range(1970, 10000) if tier != "quick" else list(range(1970, 2110)) + list(range(2390, 2410)) + list(range(9990, 10000)) + [r.randrange(1970, 10000) for _ in range(300)]
     for y in years:
